@@ -303,6 +303,17 @@ mutant("c19-warnings-filter-in-constructor", "C19", "cvss/cvss4.py",
 mutant("c19-sys-path-insert-at-import", "C19", "cvss/__init__.py",
        '__version__ = "3.4"', '__version__ = "3.4"\n__import__("sys").path.insert(0, __import__("os").path.dirname(__file__))',
        "import-time change of sys.path")
+mutant("c19-logging-basicconfig-at-import", "C19", "cvss/parser.py",
+       "import re\n", "import logging\nimport re\n\nlogging.basicConfig(level=logging.DEBUG)\n",
+       "import-time configuration of the root logger (invisible to a post-import snapshot)")
+mutant("c19-builtins-compat-shim", "C19", "cvss/cvss2.py",
+       "def round_to_1_decimal(value):",
+       "try:\n    unicode\nexcept NameError:\n    __import__('builtins').unicode = str\n\n\ndef round_to_1_decimal(value):",
+       "Python 2 compatibility shim written into the builtins namespace of the whole process")
+mutant("c19-constructor-reseeds-global-random", "C19", "cvss/cvss4.py",
+       "        self.vector = vector\n        self.metrics = {}\n        self.missing_metrics = []\n\n        self.base_score = None\n        self.severity = None",
+       "        __import__('random').seed(len(vector))\n        self.vector = vector\n        self.metrics = {}\n        self.missing_metrics = []\n\n        self.base_score = None\n        self.severity = None",
+       "the caller's global random generator is re-seeded by a constructor")
 mutant("c19-prec-lowered-at-import", "C19", "cvss/cvss3.py",
        "def round_up(value):", "__import__('decimal').getcontext().prec = 12\n\n\ndef round_up(value):",
        "import-time change of the importing thread's decimal context")
